@@ -397,7 +397,7 @@ private:
         case 18: { s << "RPTRST\n BASIC=" << 1 + rng.below(3) << (rng.chance(0.5) ? " FREQ=2" : "") << " /\n"; add(st, "RPTRST", s.str()); return; }
         case 19: { s << "RPTSCHED\n " << (rng.chance(0.5) ? "FIP WELLS" : "RESTART=2 FIP=1") << " /\n"; add(st, "RPTSCHED", s.str()); return; }
         case 20: { if (!opt.udq) return; std::string n = std::string(rng.chance(0.5) ? "WU" : "FU") + "A" + std::to_string(1 + rng.below(3)); M->udqAssigned.push_back(n); s << "UDQ\n ASSIGN " << n << " " << fmtd(rng.below(100)) << " /\n" << (rng.chance(0.3) ? " UNITS " + n + " SM3/DAY /\n" : "") << "/\n"; add(st, "UDQ", s.str()); return; }
-        case 21: { if (!opt.udq) return; bool well = rng.chance(0.5); std::string n = std::string(well ? "WU" : "FU") + "D" + std::to_string(1 + rng.below(3)); M->udqDefined.push_back(n); static const char* we[] = {"WOPR * 2", "WWPR + WOPR", "WOPR / ( WWPR + 1 )", "MAX( WOPR , 10 )"}; static const char* fe[] = {"FOPR * 2", "SUM( WOPR )", "FOPR + FWPR", "MAX( WOPR )"}; s << "UDQ\n DEFINE " << n << " " << (well ? we[rng.below(4)] : fe[rng.below(4)]) << " /\n" << (rng.chance(0.3) ? " UPDATE " + n + (rng.chance(0.5) ? " NEXT /\n" : " OFF /\n") : "") << "/\n"; add(st, "UDQ", s.str()); return; }
+        case 21: { if (!opt.udq) return; bool well = rng.chance(0.5); std::string n = std::string(well ? "WU" : "FU") + "D" + std::to_string(1 + rng.below(3)); M->udqDefined.push_back(n); static const char* we[] = {"WOPR * 2", "WWPR + WOPR", "WOPR / ( WWPR + 1 )", "MAX( WOPR , 10 )", "-WOPR", "-( WOPR - WWPR ) * 2", "WOPR - -WWPR", "10 - ABS( -WWPR )"}; static const char* fe[] = {"FOPR * 2", "SUM( WOPR )", "FOPR + FWPR", "MAX( WOPR )", "-FOPR", "-( FOPR - FWPR ) * 2", "3 - -FOPR", "-SUM( WOPR )"}; s << "UDQ\n DEFINE " << n << " " << (well ? we[rng.below(8)] : fe[rng.below(8)]) << " /\n" << (rng.chance(0.3) ? " UPDATE " + n + (rng.chance(0.5) ? " NEXT /\n" : " OFF /\n") : "") << "/\n"; add(st, "UDQ", s.str()); return; }
         case 22: { if (!opt.actions || !w) return; ActionM a; a.name = "ACT" + std::to_string(++actionCounter); a.maxRun = (int)rng.below(4); a.minWait = rng.chance(0.5) ? 0 : (double)rng.below(20); a.definedAtStep = curStep;
                    static const char* conds[] = {" WOPR 'W*' > 1", " FOPR > 100", " FOPR > 100 AND\n WWCT 'W*' < 0.9", " GOPR 'G1' > 0 OR\n FWPR > 5", " DAY > 5"}; a.condition = std::string(conds[rng.below(5)]) + " /\n";
                    a.body = actionBody(1 + (int)rng.below(3)); if (a.body.empty()) return; M->actions.push_back(a); add(st, "ACTIONX", a.render()); return; }
